@@ -202,6 +202,13 @@ func svBidEnv(hostile bool) (*svMore, *svBidPre, int) {
 	m.e = svNewEnv(3, 20, svPreBid(pre))
 	m.e.app.header.Time = time.Unix(svBidNow, 0).UTC()
 	m.raw, m.signers = svBuildBid(m.e, pre, kind, hostile)
+	if sv.Tier() > 0 {
+		// thorough: the conversation store's selected stage prefix is whatever an earlier
+		// handler left (in-memory residue of the shared store object)
+		residue := []bid_data.BidConvState{bid_data.BidStateActive, bid_data.BidStateCancelled, bid_data.BidStateSucceed}[sv.Choice("residue.prefix", 3)]
+		app := m.e.app
+		m.e.beforeDeliver = func() { svBidStore(app).BidConv.WithPrefixType(residue) }
+	}
 	return m, pre, kind
 }
 
@@ -217,7 +224,7 @@ func SV_C02_bid() {
 	tx := m.sign(false)
 	sv.Assume(e.validate(tx))
 	l0 := e.ledger()
-	resp := svDeliver(e.app, tx)
+	resp := e.deliver(tx)
 	l1 := e.ledger()
 	sv.Observe("code", resp.Code)
 	for _, c := range l1.cells {
@@ -355,7 +362,7 @@ func SV_C20_bid_exchange() {
 	e := m.e
 	tx := m.sign(false)
 	sv.Assume(e.validate(tx))
-	resp := svDeliver(e.app, tx)
+	resp := e.deliver(tx)
 	sv.Observe("code", resp.Code)
 	d, err := e.app.Context.domains.WithState(e.app.Context.deliver).Get(svTop)
 	sv.Assert(err == nil, "name-still-there")
